@@ -1,6 +1,9 @@
 package generator
 
 import (
+	"crypto/sha256"
+	"encoding/hex"
+	"hash"
 	"io"
 	"strconv"
 	"strings"
@@ -11,8 +14,9 @@ import (
 
 func NewRangeWriter(w io.Writer) *RangeWriter {
 	return &RangeWriter{
-		w:       w,
-		builder: &strings.Builder{},
+		w:        w,
+		builder:  &strings.Builder{},
+		skeleton: sha256.New(),
 	}
 }
 
@@ -25,6 +29,36 @@ type RangeWriter struct {
 	index    int
 	builder  *strings.Builder
 	Literals []string
+
+	// skeleton is a hash of the generated Go code, excluding the parts that can
+	// change without the program needing to be recompiled: the contents of the
+	// string literals, and anything written with WriteVolatile.
+	skeleton hash.Hash
+	volatile bool
+}
+
+// Skeleton returns a hash of the Go code written so far, excluding the contents
+// of string literals and volatile values. If it differs between two versions of
+// a template, the Go code has to be recompiled.
+func (rw *RangeWriter) Skeleton() string {
+	return hex.EncodeToString(rw.skeleton.Sum(nil))
+}
+
+// WriteVolatile writes a value that is not significant for deciding whether the
+// generated code requires recompilation, e.g. a position used in an error message.
+func (rw *RangeWriter) WriteVolatile(s string) (r parser.Range, err error) {
+	if rw.inLiteral {
+		if _, err = rw.closeLiteral(0); err != nil {
+			return
+		}
+	}
+	return rw.writeVolatile(s)
+}
+
+func (rw *RangeWriter) writeVolatile(s string) (r parser.Range, err error) {
+	rw.volatile = true
+	defer func() { rw.volatile = false }()
+	return rw.write(s)
 }
 
 func (rw *RangeWriter) closeLiteral(indent int) (r parser.Range, err error) {
@@ -36,14 +70,16 @@ func (rw *RangeWriter) closeLiteral(indent int) (r parser.Range, err error) {
 	sb.WriteString(`templ_7745c5c3_Err = templruntime.WriteString(templ_7745c5c3_Buffer, `)
 	sb.WriteString(strconv.Itoa(rw.index))
 	sb.WriteString(`, "`)
+	if _, err := rw.write(sb.String()); err != nil {
+		return r, err
+	}
 	literal := rw.builder.String()
 	rw.Literals = append(rw.Literals, literal)
-	sb.WriteString(literal)
 	rw.builder.Reset()
-	sb.WriteString(`")`)
-	sb.WriteString("\n")
-
-	if _, err := rw.write(sb.String()); err != nil {
+	if _, err := rw.writeVolatile(literal); err != nil {
+		return r, err
+	}
+	if _, err := rw.write("\")\n"); err != nil {
 		return r, err
 	}
 
@@ -80,6 +116,9 @@ func (rw *RangeWriter) Write(s string) (r parser.Range, err error) {
 }
 
 func (rw *RangeWriter) write(s string) (r parser.Range, err error) {
+	if !rw.volatile {
+		rw.skeleton.Write([]byte(s))
+	}
 	r.From = parser.Position{
 		Index: rw.Current.Index,
 		Line:  rw.Current.Line,
